@@ -533,3 +533,37 @@ def commit_check_overlay_commit(ctx):
 
 def commit_check_overlay_try(ctx):
     return commit_check_first(ctx, "Overlay::try_commit_nonblocking")
+
+
+def seglog_append(ctx):
+    """seglog::SegmentedLog::append (the rollback log): the record's header and payload are fsynced
+    before append reports success, and when a new segment file was created the directory is fsynced
+    too; nothing fallible is dropped."""
+    prog = ctx.program("nomt")
+    f = _fn(prog, r"^seglog::.*::append$", "seglog/mod.rs")
+    cfg = pathsmt.Cfg(f)
+    table = [
+        (r"write_header|write_payload", None, [("set", "dirty")]),
+        (r"SegmentFileWriter::fsync|::fsync\b", r"writer", [("clear", "dirty")]),
+        (r"create_segment", None, [("set", "newseg")]),
+        (r"File::sync_all|File::sync_data", r"root_dir_fd", [("clear", "newseg")]),
+    ]
+    ops, hits = _events(cfg, table)
+    # the write and create_segment rows must exist; the fsync rows are what is being checked
+    _require([table[0], table[2]], [hits[0], hits[2]], "SegmentedLog::append")
+    oks = _ok_blocks(cfg)
+    if not oks:
+        raise Unmatched("no Ok block in SegmentedLog::append")
+    for bb in oks:
+        ops.setdefault(bb, []).extend([("bad_if", "dirty"), ("bad_if", "newseg")])
+    qs = [PQuery("SegmentedLog::append: record fsynced (and the directory, after creating a segment) before Ok", cfg, ops,
+                 ["dirty", "newseg"], {}, scenario="c04_seglog_dir_fsync", key="SegmentedLog::append:Ok with unsynced record / directory"),
+          PQuery("SegmentedLog::append: Ok is reachable", cfg, {bb: [("bad", None)] for bb in oks}, [], {}, expect="sat")]
+    ops2 = {bb: [o for o in v if o[0] != "clear"] for bb, v in ops.items()}
+    qs.append(PQuery("SegmentedLog::append: some path creates a segment, writes and returns Ok (sensitivity witness)", cfg, ops2,
+                     ["dirty", "newseg"], {}, expect="sat"))
+    o2, fl2, defs = _swallow_ops(cfg)
+    if not defs:
+        raise Unmatched("no fallible value in SegmentedLog::append")
+    qs.append(PMulti("SegmentedLog::append: no fallible value is dropped uninspected", cfg, o2, fl2, {}, key="SegmentedLog::append:swallowed result"))
+    return qs, {"seglog::SegmentedLog::append @ nomt/src/seglog/mod.rs"}
